@@ -1326,7 +1326,8 @@ def fwd_acceleration(m: Model, d: Data, factorize: bool = False):
 
 def _energy_pos(m: Model, d: Data):
   if m.opt.enableflags & EnableBit.ENERGY:
-    if m.sensor_e_potential == 0:  # not computed by sensor
+    # not computed by sensor (a disabled sensor stage computes nothing)
+    if m.sensor_e_potential == 0 or (m.opt.disableflags & DisableBit.SENSOR):
       sensor.energy_pos(m, d)
   else:
     d.energy.zero_()
@@ -1334,7 +1335,8 @@ def _energy_pos(m: Model, d: Data):
 
 def _energy_vel(m: Model, d: Data):
   if m.opt.enableflags & EnableBit.ENERGY:
-    if m.sensor_e_kinetic == 0:  # not computed by sensor
+    # not computed by sensor (a disabled sensor stage computes nothing)
+    if m.sensor_e_kinetic == 0 or (m.opt.disableflags & DisableBit.SENSOR):
       sensor.energy_vel(m, d)
 
 
